@@ -142,7 +142,8 @@ let rec spec_of s : astate nspec = match lst s with
 let path_of s = List.map natx (lst s)
 let date_of s = match atom s with "none" -> None | a -> Some (nat_of_int (int_of_string a))
 let field_of s = match atom s with
-  | "value" -> RValue | "weight" -> RWeight | "notl" -> RNotl | "price" -> RPrice | a -> failwith ("field " ^ a)
+  | "value" -> RValue | "weight" -> RWeight | "notl" -> RNotl | "price" -> RPrice | "series" -> RSeries
+  | a -> failwith ("field " ^ a)
 let op_of s : op = match lst s with
   | [Atom "update"; d] -> OUpdate (date_of d)
   | [Atom "adjust"; p; a; u; f; fee] -> OAdjust (path_of p, num_of a, bool_of u, bool_of f, num_of fee)
